@@ -6,6 +6,7 @@ open ListView Bytes
 def elemParams : String → Option (Nat × Nat)
   | "u8" => some (1, 1) | "u16" => some (2, 2) | "b3" => some (3, 1) | "u32" => some (4, 4)
   | "u64" => some (8, 8) | "a16" => some (16, 16) | "m35" => some (35, 1) | "zst" => some (0, 1)
+  | "t12" => some (12, 4) | "t24" => some (24, 8)
   | _ => none
 
 def prefixWidth : String → Option Nat
